@@ -544,7 +544,7 @@ func daaCause(get func(h int) TW, h int) string {
 func RunC02(tier string, seed int64) int {
 	ctx := common.QuietCtx()
 	run := common.NewRun("C02", tier, seed, "exploration")
-	run.Rule = "three monitors: (1) every exponent byte x mantissa classes x {child of genesis, child of a real-chain tip above the DAA activation, orphan} through ProcessHeader with difficulty enabled, nonce ground where the target allows; (2) Branch.Target vs a reference cw-144 implementation on synthetic chains (regular, ties in all weak orderings, decreasing, far-future, random walk; root and child branches); (3) both real-chain fixtures replayed with difficulty enabled plus single-field mutants of real headers. distinct = distinct (exponent,class,placement) / (fixture,height,mutation) / chain descriptors"
+	run.Rule = "three monitors: (1) every exponent byte x mantissa classes x {child of genesis, child of a real-chain tip above the DAA activation, orphan} through ProcessHeader with difficulty enabled, nonce ground where the target allows; (2) Branch.Target vs a reference cw-144 implementation on synthetic chains (regular, ties in all weak orderings, decreasing, far-future, random walk; root and child branches); (3) both real-chain fixtures replayed with difficulty enabled plus single-field mutants of real headers; (4) real headers submitted while a made-up competing branch (other timestamps, hence other required bits) is the most-work branch: they extend a side branch and must be judged on it. distinct = distinct (exponent,class,placement) / (fixture,height,mutation) / chain descriptors"
 	run.Assumptions = []string{
 		"reference DAA transcribed from the node implementation (median-of-3 swap network, signed clamped timespan, W*600/ts, (2^256-W)/W); it is validated against the real headers in the fixtures on every run",
 		"the work->target inversion is (2^256-W)/W as in the node implementation; it is the only one of the two candidate formulas under which a chain with steady difficulty and exact spacing keeps its bits (fixed point), and both real-chain fixtures agree with it (DESIGN.md C02 iii)",
@@ -567,6 +567,12 @@ func RunC02(tier string, seed int64) int {
 	}
 	s.bitsRobustness(ctx, fx7, rounds)
 	s.daaDifferential(ctx, chains)
+	ownBranch := 24
+	if tier == "thorough" {
+		ownBranch = 600
+	}
+	s.ownBranch(ctx, fx7, "headers_725000", ownBranch)
+	s.ownBranch(ctx, fx5, "headers_556000", ownBranch)
 	var wg sync.WaitGroup
 	wg.Add(2)
 	go func() { defer wg.Done(); s.realChain(ctx, fx5, "headers_556000", mutEvery, 91) }()
@@ -574,4 +580,68 @@ func RunC02(tier string, seed int64) int {
 	wg.Wait()
 	run.Extra("observations", s.obs)
 	return run.Finish()
+}
+
+// ownBranch: the required bits are those of the header's own branch. A real chain prefix is
+// loaded, a made-up competing branch with a different timestamp pattern (added with the checks
+// off, as the repository's own tests do) becomes the most-work branch, the checks are switched
+// back on and the next real headers -- which now extend a side branch -- must still be accepted.
+func (s *c02State) ownBranch(ctx context.Context, fx *Fixture, name string, n int) {
+	common.ParallelFor(n, runtime.NumCPU(), func(ci int) {
+		rng := common.Rng(s.run.Seed, int64(97000+ci))
+		lo := 300
+		if fx.Height+lo < daaActivation+150 {
+			lo = daaActivation + 150 - fx.Height
+		}
+		if lo+30 >= len(fx.Headers) {
+			return
+		}
+		k := lo + rng.Intn(len(fx.Headers)-lo-12) // first real header withheld
+		repo, err := NewFixtureRepo(ctx, fx, k)
+		if err != nil {
+			s.run.Inconclusive("own-branch: fixture repo: " + err.Error())
+			return
+		}
+		d := 1 + rng.Intn(10) // the competing branch forks d headers below the real tip
+		parent := fx.Headers[k-1-d]
+		step := []uint32{1, 30, 150, 2400, 7200}[rng.Intn(5)]
+		repo.DisableDifficulty()
+		prev, ts := *parent.BlockHash(), parent.Timestamp
+		extra := 1 + rng.Intn(6)
+		for i := 0; i < d+extra; i++ {
+			ts += step
+			hd := &wire.BlockHeader{Version: 1, PrevBlock: prev, Timestamp: ts, Bits: parent.Bits, Nonce: rng.Uint32()}
+			if e := repo.ProcessHeader(ctx, hd); e != nil {
+				s.run.Inconclusive("own-branch: competing branch refused: " + e.Error())
+				return
+			}
+			prev = *hd.BlockHash()
+		}
+		if repo.LastHash() != prev {
+			s.run.Inconclusive("own-branch: competing branch did not become the most-work branch")
+			return
+		}
+		repo.EnableDifficulty()
+		for i := k; i < k+6 && i < len(fx.Headers); i++ {
+			real := fx.Headers[i]
+			height := fx.Height + i
+			var perr error
+			pan := safe(func() { perr = repo.ProcessHeader(ctx, real) })
+			s.run.Eval(1)
+			s.count("real-headers-submitted-onto-a-side-branch")
+			w := map[string]interface{}{"kind": "own-branch", "fixture": name, "real_prefix": k, "fork_below_tip": d, "competing_headers": d + extra,
+				"competing_spacing_s": step, "real_header_index": i, "seed": s.run.Seed}
+			if pan != "" || perr != nil {
+				s.run.Violate(common.Violation{Clause: "bits-equal-daa-on-own-branch", Signature: "real-header-refused-on-side-branch/" + classify(perr),
+					Detail: fmt.Sprintf("real mainnet header %d extends the real branch while a made-up branch (spacing %d s) is the most-work branch: refused panic=%q err=%v", height, step, pan, perr), Witness: w})
+				return
+			}
+			if h := repo.HashHeight(*real.BlockHash()); h != height {
+				s.run.Violate(common.Violation{Clause: "every-real-header-accepted", Signature: "real-header-on-side-branch-not-stored",
+					Detail: fmt.Sprintf("height %d reported %d", height, h), Witness: w})
+				return
+			}
+		}
+		s.run.DistinctStr(fmt.Sprintf("own-branch/%s/%d/%d/%d", name, d, extra, step))
+	})
 }
